@@ -20,7 +20,9 @@ pub mod c11;
 pub mod c12;
 pub mod c13;
 pub mod c14;
+pub mod c15;
 pub mod c16;
+pub mod c17;
 
 #[derive(Clone, Copy, Debug, PartialEq, Eq)]
 pub enum Tier {
@@ -59,7 +61,7 @@ pub fn enumeration(id: &str) -> Option<fn(u64, Tier) -> Option<Value>> {
 }
 
 pub fn all() -> Vec<PropDef> {
-  vec![c01::def(), c02::def(), c03::def(), c04::def(), c05::def(), c06::def(), c07::def(), c08::def(), c09::def(), c10::def(), c11::def(), c12::def(), c13::def(), c14::def(), c14::def20(), c16::def()]
+  vec![c01::def(), c02::def(), c03::def(), c04::def(), c05::def(), c06::def(), c07::def(), c08::def(), c09::def(), c10::def(), c11::def(), c12::def(), c13::def(), c14::def(), c14::def20(), c15::def(), c16::def(), c17::def()]
 }
 
 pub fn find(id: &str) -> Option<PropDef> {
@@ -71,6 +73,7 @@ pub fn trigger(name: &str) -> Option<fn(&Value, &str, &str) -> bool> {
   match name {
     "sms_map_without_mapped_segment" => Some(trig_sms_map_without_mapped_segment),
     "cached_under_replace" => Some(trig_cached_under_replace),
+    "nonascii_under_nested_replace" => Some(trig_nonascii_under_nested_replace),
     "nonascii_cached_replay" => Some(trig_nonascii_cached_replay),
     "replace_empty_ops_finer_column" => Some(c13::trig_replace_empty_ops_finer_column),
     _ => None,
@@ -90,6 +93,25 @@ fn trig_sms_map_without_mapped_segment(case: &Value, clause: &str, _d: &str) -> 
     spec.map_delegate(),
     crate::spec::Spec::SourceMap { inner: None, .. }
   )
+}
+
+/// A ReplaceSource with replacements over non-ASCII text whose inner tree
+/// contains another ReplaceSource with replacements, a SourceMapSource or a
+/// custom map-driven source (sources that count columns in characters).
+fn trig_nonascii_under_nested_replace(case: &Value, _clause: &str, _d: &str) -> bool {
+  use crate::spec::Spec;
+  let spec = spec_of(case);
+  spec.contains(&|s| match s {
+    Spec::Replace { inner, ops } if !ops.is_empty() => {
+      !inner.model_text().is_ascii()
+        && inner.contains(&|i| match i {
+          Spec::Replace { ops, .. } => !ops.is_empty(),
+          Spec::SourceMap { .. } | Spec::Custom { map: Some(_), .. } => true,
+          _ => false,
+        })
+    }
+    _ => false,
+  })
 }
 
 /// The tree has a CachedSource and non-ASCII text, and the same tree with
